@@ -395,7 +395,7 @@ pub struct RandCase {
 }
 
 fn rand_strategy(t: Tier) -> BoxedStrategy<RandCase> {
-    let id = prop_oneof![3 => 0u8..8, 1 => any::<u8>()];
+    let id = prop_oneof![6 => 0u8..8, 2 => any::<u8>(), 1 => Just(255u8), 1 => Just(128u8)];
     let op = prop_oneof![
         3 => (0u8..3).prop_map(Op::ProvNew),
         2 => Just(Op::ProvHand),
@@ -406,11 +406,12 @@ fn rand_strategy(t: Tier) -> BoxedStrategy<RandCase> {
         1 => Just(Op::SaveOldest),
         2 => id.prop_map(Op::SaveFresh),
     ];
-    bx((1u8..=4, prop::collection::vec(op, 1..t.pick(80, 200))).prop_map(|(k, ops)| RandCase { k, ops }))
+    bx((prop_oneof![5 => 1u8..=4, 1 => Just(0u8)], prop::collection::vec(op, 1..t.pick(80, 200))).prop_map(|(k, ops)| RandCase { k, ops }))
 }
 
 fn check_rand(c: &RandCase, st: &mut Stats) -> Result<(), String> {
-    if run_sequence(c.k as usize, &c.ops, st)? {
+    st.class_if(c.k == 0, "256-slots");
+    if run_sequence(crate::common::slots_of(c.k), &c.ops, st)? {
         st.nontrivial(hash_of(c));
     }
     st.sample(|| json!({"slots": c.k, "ops": format!("{:?}", c.ops)}));
